@@ -35,6 +35,11 @@ impl Command for CommandImpl {
             &context.arguments[0]
         };
 
+        // the extension ends up in PathBuf::set_extension, which panics for a value with a path separator
+        if extension.contains(std::path::is_separator) {
+            return CommandResult::Error("Invalid file extension.".to_string());
+        }
+
         let path = get_temporary_file_path(extension);
 
         match io::create_empty_file(&path) {
